@@ -396,7 +396,7 @@ func main() {
 		}
 	}
 	var b strings.Builder
-	b.WriteString("import KitModel.Containers\n/-! GENERATED by harness/cmd/factgen_c14 from concurrency/cmap/map.go, concurrency/cmap/atomic.go,\nconcurrency/slice/slice.go — do not edit; bin/check rewrites it on every run. -/\nnamespace Kit.Generated.C14\nopen Kit.Containers\n\n")
+	b.WriteString("import KitModel.Containers\n/-! GENERATED by harness/cmd/factgen_c14 from concurrency/cmap/map.go, concurrency/cmap/atomic.go,\nconcurrency/slice/slice.go, ring/buffered.go — do not edit; bin/check rewrites it on every run. -/\nnamespace Kit.Generated.C14\nopen Kit.Containers\n\n")
 	b.WriteString("/-- (struct, name of its sync.RWMutex field, number of guarded fields) -/\ndef structs : List (String × String × Nat) := [\n" + strings.Join(structLines, ",\n") + "]\n\n")
 	b.WriteString("def methods : List MethodFact := [\n")
 	for i, m := range methods {
@@ -410,7 +410,9 @@ func main() {
 		}
 		b.WriteString("\n")
 	}
-	b.WriteString("]\n\nend Kit.Generated.C14\n")
+	b.WriteString("]\n\n")
+	b.WriteString(bufferedFacts(*repo))
+	b.WriteString("end Kit.Generated.C14\n")
 	if *out == "" {
 		fmt.Print(b.String())
 		return
